@@ -1356,3 +1356,81 @@ func (fc *FC) ElementDefs(res *RF) (defs []ElemDef, why string) {
 	}
 	return nil, "no indexed store into the result in a loop and no append loop"
 }
+
+// FullScan: the loop that reads/writes position idx visits every index
+// 0,1,…,n-1 exactly once, in order: idx = k+c for one loop counter k that
+// advances by 1, idx is 0 in the first iteration, the loop continues exactly
+// while idx < n (tested at the header), and it cannot be left from inside an
+// iteration.
+func (b *B) FullScan(rule, construct, where string, fc *FC, idx, n *RF) bool {
+	s := b.X.S
+	var k *RF
+	for _, ph := range fc.loopPhis(idx) {
+		if d, isC := idx.Sub(ph).IsConst(); isC && d.IsInt() {
+			if k != nil {
+				b.R.Fail(rule, construct, where, "the index depends on several loop counters")
+				return false
+			}
+			k = ph
+		}
+	}
+	if k == nil {
+		b.R.Fail(rule, construct, where, "the index "+clip(idx.String(), 80)+" is not a loop counter plus a constant")
+		return false
+	}
+	kat := k.SingleAtom()
+	lfc := b.X.phiFC[kat.ID]
+	hdr := b.X.phiOf[kat.ID].Block()
+	ki, kn := lfc.Recurrence(k)
+	if !kn.Equal(k.Add(s.Int(1))) {
+		b.R.Fail(rule, construct, where, "the counter does not advance by 1 per iteration: "+clip(kn.String(), 80))
+		return false
+	}
+	if first := idx.Subst(map[AtomID]*RF{kat.ID: ki}); !first.Equal(s.Int(0)) {
+		b.R.Fail(rule, construct, where, "the first index visited is "+clip(first.String(), 80)+", not 0")
+		return false
+	}
+	ifi, ok := hdr.Instrs[len(hdr.Instrs)-1].(*ssa.If)
+	if !ok {
+		b.R.Fail(rule, construct, where, "the loop has no bound test at its header")
+		return false
+	}
+	cond := lfc.Val(ifi.Cond)
+	want := s.Cmp("<", idx, n)
+	if !(cond.Equal(want) || b.X.EquivByCases(cond, want, 0)) {
+		b.R.Fail(rule, construct, where, "the loop runs while "+clip(cond.String(), 120)+", not while index < "+clip(n.String(), 60)+": not every element is visited")
+		return false
+	}
+	var l *Loop
+	for _, ll := range lfc.Ctx.Loops() {
+		if ll.Header == hdr {
+			l = ll
+		}
+	}
+	if l == nil || !l.Body[hdr.Succs[0].Index] {
+		b.R.Fail(rule, construct, where, "the bound test does not lead into the loop body")
+		return false
+	}
+	for bi := range l.Body {
+		blk := lfc.Fn.Blocks[bi]
+		if blk == hdr {
+			continue
+		}
+		for _, sc := range lfc.Ctx.LiveSuccs(blk) {
+			if !l.Body[sc.Index] {
+				// an early return/panic with its own result is not a truncated
+				// scan; a jump to the loop's normal continuation (break) is
+				last := sc.Instrs[len(sc.Instrs)-1]
+				_, isPanic := last.(*ssa.Panic)
+				_, isRet := last.(*ssa.Return)
+				if (isPanic || isRet) && sc != hdr.Succs[1] {
+					continue
+				}
+				b.R.Fail(rule, construct, where, "the loop can be left from inside an iteration (not every element is visited)")
+				return false
+			}
+		}
+	}
+	b.R.OK(rule, construct, where, "visits every index 0.."+clip(n.String(), 40)+"-1 once, in order")
+	return true
+}
